@@ -3,6 +3,8 @@ import json
 import os
 from ..vlib import core, tlc
 
+FLOAT = {"delays": [0.0, 0.1, 0.2, 0.3, 0.7, 1.1, 3.7], "until_deltas": [0.0, 0.1, 0.25, 0.3, 1.3],
+         "until_abs": [0.3, 0.47, 1.7, 2.33, 4.41, 5.55, 7.77, 9.81, 13.51, 0.1, 0.6, 1.9, 3.3, 6.1, 8.2]}
 BASE = {"sleep": 0, "timeout": 0, "event": 0, "succeed": 0, "fail": 0, "spawn": 0, "interrupt": 0, "cond": 0,
         "condnoprobe": 0, "yield": 0, "baddelay": 0, "condforeign": 0, "raise": 0, "return": 0.3}
 
@@ -59,7 +61,15 @@ def mc_replay(ctx, cfgname, over=None, label=None, driver="kernel", module="Kern
         ctx.events += len(o["log"])
         if o.get("driver_error"):
             raise core.Machinery("kernel driver failed on %s: %s" % (json.dumps(p["script"]), o["driver_error"]))
-        if o["log"] != p["log"]:
+        if o["log"] == p["log"] and "final" in p and o.get("final") != p["final"]:
+            bad += 1
+            pos = next((i for i, (a, b) in enumerate(zip(o["final"], p["final"])) if a != b), -1)
+            ctx.violation("kernel_replay", {"scripts": p["script"]}, {"code_final": o["final"], "spec_final": p["final"]},
+                          "state of event %d after the run differs: code %s / spec %s" % (
+                              pos + 1, json.dumps(o["final"][pos]) if 0 <= pos < len(o["final"]) else "?",
+                              json.dumps(p["final"][pos]) if 0 <= pos < len(p["final"]) else "?"),
+                          sig="replay-final " + cfgname)
+        elif o["log"] != p["log"]:
             bad += 1
             pos = next((i for i, (a, b) in enumerate(zip(o["log"], p["log"])) if a != b), min(len(o["log"]), len(p["log"])))
             ctx.violation("kernel_replay", {"scripts": p["script"]}, {"code_log": o["log"], "spec_log": p["log"]},
@@ -86,7 +96,7 @@ def gen_validate(ctx, n, kinds, plan_kinds=None, label="generated", orphan_findi
     for o in out:
         if o.get("driver_error"):
             raise core.Machinery("kernel driver failed on generated program: %s" % o["driver_error"])
-    tr = [{"scripts": o["scripts"], "log": o["log"]} for o in out]
+    tr = [dict({"scripts": o["scripts"], "log": o["log"], "final": o["final"]}, **({"ftab": o["ftab"], "fl": o["fl"]} if "ftab" in o else {})) for o in out]
     stuck = ctx.validate("KernelTrace", "KernelTrace.cfg", "kernel", tr, shard=150)
     ctx.events += sum(len(t["log"]) for t in tr)
     still = {}
